@@ -56,6 +56,13 @@ type retPoint struct {
 	blk  int
 }
 
+// narrowInfo: what a call-free loop can write, beyond the caller-visible frame.
+type narrowRegion struct{ obj, lo, hi string }
+type narrowInfo struct {
+	known    []narrowRegion // cells stored through field paths rooted outside the loop
+	exclTags []int          // tags of objects that element writes of the loop's slice types can land in
+}
+
 type frameLoc struct {
 	obj, lo, hi string
 	typ         types.Type // static type of the region's object (struct for p.*, element type for s[*])
@@ -96,6 +103,7 @@ type Exec struct {
 	boundedBy []string
 	nlanes   int
 	pruneDir string
+	lastNarrow *narrowInfo
 	instDone map[string]bool
 	prunePos string
 	pruneN   int
@@ -1397,6 +1405,7 @@ func (e *Exec) havocHeaps(s *State, kinds map[string]bool, allocs bool, narrowed
 	c := e.c
 	r := e.root
 	frame := r.frame
+	Apre := s.A
 	if allocs {
 		Aold := s.A
 		s.A = c.fresh("Int", "hvA")
@@ -1416,6 +1425,20 @@ func (e *Exec) havocHeaps(s *State, kinds map[string]bool, allocs bool, narrowed
 		nh := c.fresh("HP", "hvH"+k)
 		hpre := s.heaps[k]
 		s.heaps[k] = nh
+		if ni := e.lastNarrow; ni != nil {
+			// every object that exists at loop entry - old or allocated by this function -
+			// whose tag excludes it as a target of the loop's element writes keeps all
+			// cells but the named ones
+			var tg, inf []string
+			for _, t := range ni.exclTags {
+				tg = append(tg, fmt.Sprintf("(not (= (tag o) %d))", t))
+			}
+			for _, k := range ni.known {
+				inf = append(inf, fmt.Sprintf("(and (= o %s) (<= %s x) (< x %s))", k.obj, k.lo, k.hi))
+			}
+			c.emit(fmt.Sprintf("(assert (forall ((o Int) (x Int)) (! (=> (and (< 0 o) (< o %s) %s (not (or %s false))) (= (select (select %s o) x) (select (select %s o) x))) :pattern ((select (select %s o) x)))))",
+				Apre, strings.Join(tg, " "), strings.Join(inf, " "), nh, hpre, nh), true)
+		}
 		if r.frameAll {
 			continue
 		}
